@@ -10,6 +10,7 @@ import (
 	"strconv"
 	"strings"
 
+	"github.com/Oudwins/zog/internals"
 	"github.com/Oudwins/zog/parsers/zjson"
 	"github.com/Oudwins/zog/zenv"
 	"github.com/Oudwins/zog/zhttp"
@@ -346,10 +347,16 @@ func (x *X) makeInput(op *Op, b *Built) (any, func()) {
 		x.Faults["struct_source"]++
 		return GoStructOf(b.N, op.Input, in), noop
 	case "zjson":
+		if f, ok := x.given.(internals.DpFactory); ok && op.Arg == "given" {
+			return f, noop // the very factory an earlier call was given
+		}
 		body := op.IOBody(b, "json")
 		rd := NewSimReader([]byte(body), op.IO, x.Faults)
 		return zjson.Decode(rd), noop
 	case "zhttp":
+		if f, ok := x.given.(internals.DpFactory); ok && op.Arg == "given" {
+			return f, noop
+		}
 		if rq, ok := x.given.(*http.Request); ok && op.Arg == "given" {
 			return zhttp.Request(rq), noop
 		}
